@@ -45,6 +45,9 @@ def run(ctx):
     ctx.floor('R12.4', voting_type_travels(ctx, 'R12.4'), 3)
     ctx.rule('R12.5', 'similarity -> distance conversion')
     ctx.floor('R12.5', similarity(ctx, 'R12.5'), 4)
+    from props import C06
+    ctx.rule('R12.9', 'the simple and the batch VisualSORT front end run the same pipeline with the same constants')
+    ctx.floor('R12.9', C06.sibling(ctx, 'R12.9', pairs=(('VisualSort', 'BatchVisualSort'),)), 3)
     ctx.rule('R12.7', 'positional fallback = the positional metric clauses of SORT (gate, detection confidence floor, cost)')
     ctx.floor('R12.7', M.rule_positional(ctx, 'R12.7'), 14)
 
@@ -154,6 +157,31 @@ def cascade(ctx, R):
         ctx.fail(R, b, 'appearance-winners-labelled-Visual', 'no closure labels appearance winners as Visual')
     if not positional_label:
         ctx.fail(R, b, 'positional-winners-labelled-Positional', 'no closure labels positional winners as Positional')
+    # every claimant of the appearance stage stays a key of the winners map (a claimant that lost a contest is
+    # re-pointed to itself by best-fit and must still be kept out of the positional stage)
+    DROPPING = {'filter', 'filter_map', 'take', 'skip', 'take_while', 'skip_while', 'step_by', 'flat_map', 'flatten',
+                'dedup', 'dedup_by', 'unique', 'unique_by'}
+    chains = []
+    for c in b.find_calls():
+        if c.name not in ('collect', 'extend', 'for_each', 'fold', 'collect_vec'):
+            continue
+        recv = eb.arg(c, 0)
+        sp = []          # the receiver spine: the adaptor chain itself, not what its closures capture
+        x = recv
+        while x is not None and x.kind == 'call':
+            sp.append(x)
+            x = x.args[0] if x.args else None
+        if any(x.name.rsplit('::', 1)[-1] == 'winners' and x.args and any(
+                y.kind == 'call' and y.name.endswith('BestFitVoting::new') for y in x.args[0].walk()) for x in sp):
+            chains.append((c, sp))
+    n += 1
+    dropped = sorted({x.name.rsplit('::', 1)[-1] for _, sp in chains for x in sp
+                      if x.name.rsplit('::', 1)[-1] in DROPPING})
+    retains = [c for c in b.find_calls() if c.name in ('retain', 'remove', 'remove_entry') and 'HashMap' in c.callee]
+    ctx.check(bool(chains) and not dropped and not retains, R, b, 'every-appearance-claimant-is-kept', '',
+              'entries of the appearance result are dropped (%s) before the positional stage is fed: a detection that '
+              'claimed a track by appearance and lost can now be attached positionally to another track' % (
+                  dropped or [c.name for c in retains] or 'no chain from BestFitVoting::winners found'))
     # remaining-distances filter
     found = False
     for c in b.find_calls('std::iter::Iterator::filter'):
